@@ -42,10 +42,13 @@ pub fn exec(args: &[&str]) -> Option<String> {
             }
             let mut rx = b.build();
             let dbg = format!("{:?}", rx);
-            let dc_len = window_len_after(&dbg, "dc_block:").unwrap_or(usize::MAX);
-            let taps = window_len_after(&dbg, "demod:").unwrap_or(usize::MAX);
-            let ff = window_len_after(&dbg, "feedforward_wind:").unwrap_or(usize::MAX);
-            let fb = window_len_after(&dbg, "feedback_wind:").unwrap_or(usize::MAX);
+            // derived lengths are read from the Debug rendering; if a refactoring renames the fields they are
+            // simply not compared (reported as `?`), which the generator counts instead of judging
+            let rd = |k: &str| window_len_after(&dbg, k).map(|n| n.to_string()).unwrap_or_else(|| "?".to_owned());
+            let dc_len = rd("dc_block:");
+            let taps = rd("demod:");
+            let ff = rd("feedforward_wind:");
+            let fb = rd("feedback_wind:");
             // 0.25 s of a preamble + header burst at i16 scale, then a little silence: exercises every stage
             let mut rng = Rng::new(rate as u64);
             let mut line = Line::clean(rate);
@@ -119,13 +122,15 @@ pub fn run(ctx: &Ctx) {
         let near_boundary = (v - v.round()).abs() < 1e-3 || (rate as f64 / BAUD - (rate as f64 / BAUD).round()).abs() < 1e-3;
         let readable = format!("rate={} dc={} agcbw={} gain=[{},{}] tb=({},{}) tdev={} sq=({},{}) sqbw={} pme={} eq={} fpe={} fmi={}", rate, dc, agcbw, gmin, gmax, tbu, tbl, tdev, sqo, sqc, sqbw, pme, if eq == "none" { "none".to_owned() } else { eq.split(',').take(2).collect::<Vec<_>>().join("/") }, fpe, fmi).replace(' ', ";");
         out.spec(&format!("spec.c17.run [{}] {} => {}", readable, op, ans));
-        if !near_boundary {
+        if !near_boundary && !ans.contains('?') {
             let micro = (dc.max(0.0) as f64 * 1e6).round() as u64;
             let (ff, fb) = if eq == "none" { (1u64, 1u64) } else { let p: Vec<&str> = eq.split(',').collect(); (p[0].parse().unwrap(), p[1].parse().unwrap()) };
             // requested orders, as passed to the builder (the model applies the clamps)
             let derive = format!("cfg.derive {} {} {} {} {}", rate, micro, if eq == "none" { 0 } else { 1 }, ff, fb);
             let imp = if ans.starts_with("ok ") { ans[3..].to_owned() } else { ans.clone() };
             out.op(&derive, &imp, true);
+        } else if ans.contains('?') {
+            out.count("derived_lengths_not_compared:field_not_found_in_debug_rendering");
         } else {
             out.count("derived_lengths_not_compared:near_integer_boundary");
         }
